@@ -38,9 +38,9 @@ def swarm(kw, **extra):
     gapsets = [(0, 0, 0, 1), (0, 1, 2, 3), (1, 2, 3), (0, 0, 1, 2, 5, 10), (2, 5, 10), (0,)]
 
     def build(t):
-        ov, lb, un, ld, bb, fm, pp, gi, md, mo, ae, zr = t
+        ov, lb, un, ld, bb, fm, pp, gi, md, mo, ae, zr, on, ut = t
         a = dict(overlap=ov, limit_binds=lb and not ov, unsorted=un, long_durations=ld, b2b=bb, twins=not bb, few_machines=fm,
-                 piled_plans=pp, start_gaps=gapsets[gi], max_duration=md, min_obs=mo, abs_est=ae, zero_rate=zr,
+                 piled_plans=pp, start_gaps=gapsets[gi], max_duration=md, min_obs=mo, abs_est=ae, zero_rate=zr, odd_names=on, units=ut, frac_start=ut,
                  modes=('roomy',) if (ov or lb) else ('roomy', 'band'))
         a.update(kw)
         a.update(extra)
@@ -48,7 +48,7 @@ def swarm(kw, **extra):
         return scenarios(**a)
     b = st.booleans()
     return st.tuples(b, b, b, b, b, b, b, st.integers(0, len(gapsets) - 1), st.sampled_from([2, 3, 6, 10]),
-                     st.integers(1, 3), b, b).flatmap(build)
+                     st.integers(1, 3), b, b, b, b).flatmap(build)
 
 
 def tight(kw, **extra):
@@ -498,7 +498,9 @@ class C08(SimSpec):
                    (1, self.cold_too_small(scenarios(modes=('roomy',), max_obs=3, max_nodes=3, max_duration=4,
                                                      max_machines=kw['max_machines']))),
                    (1, scenarios(unsorted=True, min_obs=2, **kw)),
-                   (1, scenarios(min_obs=3, start_gaps=(0, 0, 1), **kw)))
+                   (1, scenarios(min_obs=3, start_gaps=(0, 0, 1), **kw)),
+                   # coarser timestep units; planned starts that do not fall on a step boundary
+                   (2, scenarios(units=True, frac_start=True, modes=('roomy',), start_gaps=(0, 1, 2, 3, 5, 10), **kw)))
 
     def aborted(self, tr):
         return tr.status != 'completed' and not tr.sc.get('infeasible_cold')
@@ -777,7 +779,9 @@ class C17(SimSpec):
                    # "however long that machine is kept busy by ingest": long observations holding planned machines
                    (3, scenarios(algs=('dynamic',), piled_plans=True, min_obs=2, long_durations=True, few_machines=True,
                                  modes=('roomy',), start_gaps=(0, 1, 2, 3), **kw)),
-                   (1, scenarios(algs=('dynamic',), piled_plans=True, **kw)))
+                   (1, scenarios(algs=('dynamic',), piled_plans=True, **kw)),
+                   # "static plans over heterogeneous clusters": machine ids whose configuration order is not alphabetical
+                   (2, scenarios(algs=('dynamic',), odd_names=True, delays=True, min_obs=2, **kw)))
 
     def nontrivial(self, tr):
         return bool(tr.counts.get('forced_wait_rounds'))
